@@ -31,7 +31,7 @@ def flat_stage(rng):
 def cases(tier, rng):
     yield {'kind': 'mux', 'term': [['batch', 1]], 'items': [1, 2, 3]}
     yield {'kind': 'mux', 'term': [['roll', 3, 2, [['count', True]]]], 'items': [1, 2, 3, 4, 5]}
-    n = {'quick': 600, 'thorough': 12000, 'search': 600}[tier]
+    n = {'quick': 1500, 'thorough': 12000, 'search': 600}[tier]
     for _ in range(n):
         r = rng.random()
         flat = []
